@@ -97,6 +97,9 @@ CONFIGS = {        # name: (index bounds, grid size, (lowest, highest) symbolic 
     "off": ((10, 10, 60, 60), 50, (-5, 75)),
     "tiny": ((-7, -7, 7, 7), 7, (-10, 10)),
     "wide": ((-100, -100, 100, 100), 50, (-130, 130)),
+    # four different bounds (x0 > y0, x1 > y1 and the other way round): an x bound used for y, or a lower bound used for an upper one, is invisible in the square configurations above
+    "skew": ((30, -20, 130, 60), 50, (-40, 150)),
+    "skew2": ((-20, 30, 60, 130), 50, (-40, 150)),
 }
 
 
@@ -346,7 +349,10 @@ def jobs(tier):
                 J.append(Job("H3_plane:%s:1d:2box:3ops:%d" % (c, k), "h3_plane", {"config": c, "nbox": 2, "seqs": part, "oned": True}, 150))
         # insertion order under re-insertion: every add/remove sequence of 5 operations over two boxes without a query (cheap: no symbolic query box)
         J.append(Job("H3_plane:pos:1d:2box:order", "h3_plane", {"config": "pos", "nbox": 2, "seqs": [q for q in op_sequences(2, 5) if "f" not in q], "oned": True}, 150))
-        for c in ("off", "tiny"):
+        for c in ("skew", "skew2"):
+            for k in range(4):
+                J.append(Job("H3_plane:%s:2d:1box:2ops:%d" % (c, k), "h3_plane", {"config": c, "nbox": 1, "seqs": [["a0", "f"]], "part": [k, 4, 9]}, 300))
+        for c in ("off", "tiny", "skew", "skew2"):
             J.append(Job("H3_plane:%s:1d:1box:2ops" % c, "h3_plane", {"config": c, "nbox": 1, "seqs": [["a0", "f"]], "oned": True}, 100))
         for k in range(6):
             J.append(Job("H3_plane:neg:2d:1box:2ops:%d" % k, "h3_plane", {"config": "neg", "nbox": 1, "seqs": [["a0", "f"]], "part": [k, 6, 9]}, 150))
@@ -354,7 +360,7 @@ def jobs(tier):
             J.append(Job("H3_plane:%s:1d:flat:2ops" % c, "h3_plane", {"config": c, "nbox": 1, "seqs": [["a0", "f"]], "oned": True, "degenerate": True}, 150))
     else:
         s4 = op_sequences(2, 4)
-        for c in ("pos", "neg", "off", "tiny"):
+        for c in ("pos", "neg", "off", "tiny", "skew", "skew2"):
             for k, part in enumerate(_split(s4, 8)):
                 J.append(Job("H3_plane:%s:1d:2box:4ops:%d" % (c, k), "h3_plane", {"config": c, "nbox": 2, "seqs": part, "oned": True}, 900))
             for k in range(4):
